@@ -1,0 +1,39 @@
+//! Verification hook H8 (compiled only with `--cfg plonky2_verif`): adversarial prover knobs.
+//! With no knob set (the default) the provers behave exactly as without the hook. Each knob makes
+//! the prover deviate in one place *before* the affected message is absorbed, so that the rest of
+//! the transcript stays consistent and exactly one verifier check is violated.
+use std::sync::Mutex;
+
+#[derive(Clone, Debug, Default)]
+pub struct Knobs {
+    /// PLONK: every permutation accumulator `Z` is replaced by this constant polynomial.
+    pub z_override: Option<u64>,
+    /// PLONK: every lookup polynomial is replaced by this constant polynomial.
+    pub lookup_override: Option<u64>,
+    /// PLONK: the quotient polynomial of this challenge index gets 1 added to its constant term.
+    pub perturb_quotient: Option<usize>,
+    /// PLONK and STARK: truncate the quotient instead of insisting that the dropped coefficients are zero.
+    pub lenient_trim: bool,
+    /// PLONK: this value is added to the first wire opening before the openings are absorbed.
+    pub opening_delta: Option<u64>,
+    /// FRI: use this proof-of-work witness instead of grinding.
+    pub pow_witness: Option<u64>,
+    /// FRI: `(layer, delta)`: `delta` is added to every value of commit-phase layer `layer` before it is committed.
+    pub fri_layer_delta: Option<(usize, u64)>,
+    /// FRI: `(index, delta)`: `delta` is added to final-polynomial coefficient `index` before it is absorbed.
+    pub fri_final_poly_delta: Option<(usize, u64)>,
+}
+
+static KNOBS: Mutex<Option<Knobs>> = Mutex::new(None);
+
+pub fn set(knobs: Knobs) {
+    *KNOBS.lock().unwrap() = Some(knobs);
+}
+
+pub fn clear() {
+    *KNOBS.lock().unwrap() = None;
+}
+
+pub fn get() -> Knobs {
+    KNOBS.lock().unwrap().clone().unwrap_or_default()
+}
